@@ -149,5 +149,6 @@ pub fn parse_idl_args(s: &str) -> crate::Result<candid::IDLArgs> {
 
 pub fn parse_idl_value(s: &str) -> crate::Result<candid::IDLValue> {
     let lexer = token::Tokenizer::new(s);
-    Ok(grammar::ArgParser::new().parse(None, lexer)?)
+    // a value may carry a type annotation, which is how numbers are printed
+    Ok(grammar::AnnValParser::new().parse(None, lexer)?)
 }
